@@ -23,7 +23,7 @@ from anytree.exporter import DotExporter, MermaidExporter, UniqueDotExporter
 from . import invariants
 from .srch import ref_preorder
 from .struct import Result, Violation, stable_hash
-from .world import HNode, World
+from .world import HNode, OpGuard, Watchdog, World
 
 KNOWN_OPEN = set()
 
@@ -523,9 +523,12 @@ def run(cfg, ops=None, rng=None):
                 c = op["c"]
                 if c in cursors:
                     try:
-                        line = next(cursors[c])
+                        with OpGuard(3.0 + 0.002 * n, 900):
+                            line = next(cursors[c])
                         collected[c].append(line)
                         res.bump("cursor_steps")
+                    except Watchdog as wd:
+                        raise Violation(prop, "hang", step, "hang:iteration", "step %d: the exporter's iteration does not terminate (%s)" % (step, wd))
                     except StopIteration:
                         del cursors[c]
                         lines = collected.pop(c)
